@@ -1,6 +1,7 @@
 package verifbench
 
 import (
+	"runtime/pprof"
 	"encoding/json"
 	"fmt"
 	"os"
@@ -39,6 +40,10 @@ func TestDump(t *testing.T) {
 	}
 	out := runScenario(&sc)
 	fmt.Printf("BuildErr=%q ConfigErr=%q Panic=%q\n", out.BuildErr, out.ConfigErr, out.Panic)
+	if out.Hang {
+		fmt.Println("HANG: ServeHTTP did not return; goroutines:")
+		_ = pprof.Lookup("goroutine").WriteTo(os.Stdout, 2)
+	}
 	if out.Sent != nil {
 		fmt.Printf("REQUEST %s %s\n  headers=%v\n  body(%d)=%q\n", out.Sent.Method, out.Sent.Target, out.Sent.Header, len(out.Sent.Body), trunc(out.Sent.Body))
 	}
